@@ -285,6 +285,27 @@ def apply_patch_text(sources, patch_text):
                         found = pos + d
                         break
                 if found is None:
+                    # the surrounding code changed since the patch was made (a later fix in /repo): retry with less context,
+                    # as `patch --fuzz` does -- only lines that are context on both sides are dropped
+                    lead = 0
+                    while lead < min(len(old), len(new)) and old[lead] == new[lead]:
+                        lead += 1
+                    trail = 0
+                    while trail < min(len(old), len(new)) - lead and old[-1 - trail] == new[-1 - trail]:
+                        trail += 1
+                    for cut_l, cut_t in ((a, b) for tot in range(1, 7) for a in range(0, min(lead, tot) + 1) for b in [tot - a] if b <= trail):
+                        o2 = old[cut_l:len(old) - cut_t]
+                        if not o2:
+                            continue
+                        for d in range(-60, 61):
+                            p2 = pos + cut_l + d
+                            if p2 >= 0 and lines[p2:p2 + len(o2)] == o2:
+                                found = p2
+                                old, new = o2, new[cut_l:len(new) - cut_t]
+                                break
+                        if found is not None:
+                            break
+                if found is None:
                     raise Unknown(f'hunk for segno/{mod}.py does not apply in memory')
                 pos = found
             lines[pos:pos + len(old)] = new
